@@ -5,8 +5,13 @@ LBP code mapping and histogram (lbp.py, _lbp.cpp), `moments` (moments.py), SURF 
 -/
 import Mahotas.Model.Basic
 import Mahotas.Generated.Tables
+import Mahotas.Model.C19Tas
+import Mahotas.Model.C19Lbp
 namespace Mahotas.C19
 open Mahotas Mahotas.Generated
+
+local instance : NatCast Float := ⟨Float.ofNat⟩
+local instance : IntCast Float := ⟨Float.ofInt⟩
 
 /-! ## co-occurrence -/
 
@@ -206,6 +211,54 @@ def haralick13 (m : Nat) (c : List Nat) : List Float :=
 def stripZeros (m : Nat) (c : List Nat) : List Nat :=
   (List.range (m * m)).map fun k => if k / m == 0 || k % m == 0 then 0 else c.getD k 0
 
+/-! ### the 14th feature: Haralick's matrix `Q` (round 4)
+
+`f14 = (second largest eigenvalue of Q)^{1/2}`, `Q(i,j) = Σ_k p(i,k) p(j,k) / (p_x(i) p_y(k))` with the row marginal
+`p_x(i) = Σ_k p(i,k)` (`py` in `texture.py`) and the column marginal `p_y(k) = Σ_i p(i,k)` (`px` in `texture.py`).
+`texture.py` amputates the empty rows/columns and takes the eigenvalues of the symmetric matrix `A Aᵀ`,
+`A(i,k) = p(i,k)/sqrt(p_x(i) p_y(k))`, which is similar to `Q` (`Q = D⁻¹ᐟ² (A Aᵀ) D¹ᐟ²`, `D = diag p_x`).
+The model is `Q` itself (generic in the scalar type; terms of an empty row/column are dropped); the eigenvalues are
+taken by the harness (numpy) from the model's matrix. -/
+
+/-- `Q(i,j)` given the row marginals `r` and column marginals `c` -/
+def qEntryG {α : Type} [Add α] [Mul α] [Div α] [BEq α] (zero : α) (m : Nat) (P : Nat → Nat → α) (r c : List α)
+    (i j : Nat) : α :=
+  gsum zero ((List.range m).map fun k =>
+    if r.getD i zero == zero || c.getD k zero == zero then zero
+    else P i k * P j k / (r.getD i zero * c.getD k zero))
+
+/-- Haralick's `Q` of the normalised matrix `P` -/
+def qMatG {α : Type} [Add α] [Mul α] [Div α] [BEq α] (zero : α) (m : Nat) (P : Nat → Nat → α) (i j : Nat) : α :=
+  qEntryG zero m P (rowSumG zero m P) (colSumG zero m P) i j
+
+/-- `Q` of a count matrix at `Float`, row-major -/
+def haralickQ (m : Nat) (c : List Nat) : List Float :=
+  let P := matAt 0.0 m (normMat Float.ofNat c)
+  let r := rowSumG 0.0 m P
+  let cs := colSumG 0.0 m P
+  (allPairs m).map fun ij => qEntryG 0.0 m P r cs ij.1 ij.2
+
+/-! ### `return_mean` / `return_mean_ptp` (round 4)
+
+`features.mean(axis=0)` adds the rows one after the other (first row, `+=` second row, …) and divides by the number of
+rows; `np.ptp(features, axis=0)` is `maximum.reduce − minimum.reduce` along the same axis. Generic in the scalar type. -/
+
+/-- `np.add.reduce(rows, axis=0)` -/
+def colFoldG {α : Type} (f : α → α → α) : List (List α) → List α
+  | [] => []
+  | r0 :: rest => rest.foldl (fun acc r => List.zipWith f acc r) r0
+
+/-- `features.mean(axis=0)` -/
+def colMeanG {α : Type} [Add α] [Div α] (cast : Nat → α) (rows : List (List α)) : List α :=
+  (colFoldG (· + ·) rows).map (· / cast rows.length)
+
+def maxG {α : Type} [LT α] [DecidableLT α] (a b : α) : α := if a < b then b else a
+def minG {α : Type} [LT α] [DecidableLT α] (a b : α) : α := if b < a then b else a
+
+/-- `np.ptp(features, axis=0)` (no NaN) -/
+def colPtpG {α : Type} [Sub α] [LT α] [DecidableLT α] (rows : List (List α)) : List α :=
+  List.zipWith (· - ·) (colFoldG maxG rows) (colFoldG minG rows)
+
 /-! ## LBP code mapping (`_lbp.cpp`) -/
 
 /-- `roll_right(v, points) = (v >> 1) | ((v & 1) << (points-1))` -/
@@ -383,6 +436,57 @@ def zernikeAbs {α : Type} [Add α] [Sub α] [Mul α] [Div α] [Neg α] [LT α] 
   (zernikeNL degree).map fun nl =>
     sqrt (cxNormSq (zernikeZ zero one cast sqrt pow eps pi R C im c0 c1 radius nl.1 nl.2))
 
+/-! ## round 4: machine integers for `integral<T>`, `moments(normalize=…, cm=None)`, the radial polynomial -/
+
+/-- a value of an integer dtype of `bits` bits (two's complement when `signed`): the arithmetic of the C++
+    template `integral<T>` on integer `T` — every `+`/`-` result is reduced into the dtype's range
+    (`-fno-strict-overflow`; the narrow types are promoted to `int` and truncated on the store, which is the
+    same reduction). -/
+structure MInt (bits : Nat) (signed : Bool) where
+  v : Int
+deriving DecidableEq
+
+instance {b : Nat} {s : Bool} : Add (MInt b s) := ⟨fun x y => ⟨wrapTo b s (x.v + y.v)⟩⟩
+instance {b : Nat} {s : Bool} : Sub (MInt b s) := ⟨fun x y => ⟨wrapTo b s (x.v - y.v)⟩⟩
+instance {b : Nat} {s : Bool} : OfNat (MInt b s) 0 := ⟨⟨0⟩⟩
+
+/-- the value numpy stores when an integer is converted to the dtype (`astype`) -/
+def MInt.ofInt (b : Nat) (s : Bool) (v : Int) : MInt b s := ⟨wrapTo b s v⟩
+
+/-- `integral<T>` run in the dtype's own arithmetic (wrap-around at every operation) -/
+def integralMachine (bits : Nat) (signed : Bool) (w : Nat) (rows : List (List Int)) : List (List Int) :=
+  (integral w (rows.map fun r => r.map (MInt.ofInt bits signed))).map fun r => r.map (·.v)
+
+/-- `p = np.arange(n, dtype=float); if cm is not None: p -= c; p **= pw; if normalize: p /= p.sum()`
+    (`c = none` is `cm=None`: nothing is subtracted) -/
+def momentWeights {α : Type} [Add α] [Sub α] [Mul α] [Div α] [OfNat α 0] [OfNat α 1] (cast : Nat → α)
+    (n pw : Nat) (c : Option α) (normalize : Bool) : List α :=
+  let p := (List.range n).map fun j => match c with
+    | some c => powN (cast j - c) pw
+    | none => powN (cast j) pw
+  if normalize then
+    let s := gsum 0 p
+    p.map (· / s)
+  else p
+
+/-- `np.dot(xs, ws)` with the weights as a list -/
+def dotList {α : Type} [Add α] [Mul α] [OfNat α 0] : List α → List α → α
+  | x :: xs, w :: ws => x * w + dotList xs ws
+  | _, _ => 0
+
+/-- `moments(img, p0, p1, cm, normalize=…)` as `moments.py` evaluates it:
+    `np.dot(np.dot(img, p_cols), p_rows)` with the two weight vectors of `momentWeights` -/
+def momentsFull {α : Type} [Add α] [Sub α] [Mul α] [Div α] [OfNat α 0] [OfNat α 1] (cast : Nat → α)
+    (R C : Nat) (rows : List (List α)) (p0 p1 : Nat) (cm : Option (α × α)) (normalize : Bool) : α :=
+  let w1 := momentWeights cast C p1 (cm.map (·.2)) normalize
+  let w0 := momentWeights cast R p0 (cm.map (·.1)) normalize
+  dotList (rows.map fun r => dotList r w1) w0
+
+/-- the radial polynomial `R_n^l(d) = Σ_{m ≤ (n-l)/2} g_m · d^(n-2m)` that `znl` accumulates (`zVnl = R · a`) -/
+def zRadial {α : Type} [Add α] [Mul α] [Div α] [Neg α] (zero one : α) (cast : Nat → α) (pow : α → Nat → α)
+    (n l : Nat) (d : α) : α :=
+  (List.range ((n - l) / 2 + 1)).foldl (fun acc m => acc + zcoef one cast n l m * pow d (n - 2 * m)) zero
+
 def zPowF (d : Float) (k : Nat) : Float := Float.pow d (Float.ofNat k)
 /-- `const double pi = atan(1.0)*4;` -/
 def zPiF : Float := Float.atan 1.0 * 4.0
@@ -433,7 +537,8 @@ def handle (a : Args) : String :=
     let spec := (List.range rows.length).flatMap fun i => (List.range w).map fun j => prefix2 rows i j
     let bits := a.nat "bits"
     let wr := fun (v : Int) => if bits == 0 then v else wrapTo bits (a.nat "signed" == 1) v
-    s!"model={showInts (out.map wr)} spec={showInts (spec.map wr)}"
+    let machine := if bits == 0 then out else (integralMachine bits (a.nat "signed" == 1) w rows).flatten
+    s!"model={showInts (out.map wr)} spec={showInts (spec.map wr)} machine={showInts machine}"
   | "integralf" =>
     let w := a.nat "w"
     let rows := chunk w (a.floats "data")
@@ -444,6 +549,16 @@ def handle (a : Args) : String :=
     let p0 := a.nat "p0"; let p1 := a.nat "p1"
     let c0 := a.int "c0"; let c1 := a.int "c1"
     s!"model={moments (fun n => (n : Int)) rows p0 p1 c0 c1} spec={momentsSpec (fun n => (n : Int)) rows p0 p1 c0 c1}"
+  | "momentsf" =>
+    -- `moments` with `normalize` / `cm=None` at Float (np.dot may add in another order: compared at 1e-12)
+    let w := a.nat "w"
+    let rows := chunk w (a.floats "data")
+    let cmf := a.floats "cm"
+    let cm : Option (Float × Float) := if a.nat "hascm" == 1 then some (cmf.headD 0.0, cmf.getD 1 0.0) else none
+    s!"model={showFloats [momentsFull Float.ofNat rows.length w rows (a.nat "p0") (a.nat "p1") cm (a.nat "normalize" == 1)]}"
+  | "zradial" =>
+    let n := a.nat "n"; let l := a.nat "l"
+    s!"r={showFloats ((a.floats "d").map fun d => zRadial 0.0 1.0 Float.ofNat zPowF n l d)}"
   | "zfrac" =>
     let disc := (a.nats "disc").map (· != 0)
     s!"frac={showFloats (zernikeFrac 0.0 disc (a.floats "data"))}"
@@ -465,6 +580,28 @@ def handle (a : Args) : String :=
     s!"z={showFloats (zs.flatMap fun z => [z.1, z.2])} abs={showFloats (zs.map fun z => Float.sqrt (cxNormSq z))} nsel={nsel}"
   | "tables" =>
     s!"d2={showInts deltas2d.flatten} d3={showInts deltas3d.flatten} fact={showNats factorialTable}"
+  | "harq" =>
+    let shape := a.nats "shape"
+    let im : Img Int := { shape := shape, data := (a.ints "data").toArray }
+    let m := a.nat "m"
+    let ndirs := if shape.length == 2 then deltas2d.length else deltas3d.length
+    let qs := (List.range ndirs).map fun dir =>
+      let c := (symFold m (coocModel m im (direction shape.length dir (a.int "dist" 1)))).toList
+      let c := if a.nat "iz" == 1 then stripZeros m c else c
+      haralickQ m c
+    s!"q={showFloats qs.flatten} ndirs={ndirs}"
+  | "harmean" =>
+    -- `return_mean` / `return_mean_ptp` of a feature matrix (rows = directions)
+    let rows := chunk (a.nat "w") (a.floats "feats")
+    s!"mean={showFloats (colMeanG Float.ofNat rows)} ptp={showFloats (colPtpG rows)}"
+  | "tas" => C19Tas.handle a
+  | "lbpt" =>
+    -- `lbp_transform(image, radius, points, ignore_zeros, preserve_shape=False)`: sampling, raw codes, `_lbp.map`
+    let im : Img Float := { shape := a.nats "shape", data := (a.floats "data").toArray }
+    let radius := (a.floats "radius").headD 1.0
+    let dydx := (a.floats "sin").zip (a.floats "cos")
+    let raw := C19Lbp.rawCodes C18.flF im radius dydx (a.nat "iz" == 1)
+    s!"raw={showNats raw} codes={showNats (raw.map (lbpMap dydx.length))}"
   | k => s!"error=unknown-kind-{k}"
 
 end Mahotas.C19
